@@ -726,7 +726,12 @@ impl RdfPlanner {
         let predicate = self.component_to_term(&insert.predicate)?;
         let object = self.component_to_term(&insert.object)?;
 
-        let triple = Triple::new(subject, predicate, object);
+        let triple = legal_triple(subject, predicate, object).ok_or_else(|| {
+            Error::Internal(
+                "INSERT DATA: the subject must be an IRI or blank node and the predicate an IRI"
+                    .to_string(),
+            )
+        })?;
         let operator = Box::new(RdfInsertTripleOperator::new(
             Arc::clone(&self.store),
             triple,
@@ -805,7 +810,12 @@ impl RdfPlanner {
         let predicate = self.component_to_term(&delete.predicate)?;
         let object = self.component_to_term(&delete.object)?;
 
-        let triple = Triple::new(subject, predicate, object);
+        let triple = legal_triple(subject, predicate, object).ok_or_else(|| {
+            Error::Internal(
+                "DELETE DATA: the subject must be an IRI or blank node and the predicate an IRI"
+                    .to_string(),
+            )
+        })?;
         let operator = Box::new(RdfDeleteTripleOperator::new(
             Arc::clone(&self.store),
             triple,
@@ -1053,8 +1063,13 @@ impl Operator for RdfInsertPatternOperator {
                 let predicate = self.resolve_component(&self.predicate, &chunk, row);
                 let object = self.resolve_component(&self.object, &chunk, row);
 
-                if let (Some(s), Some(p), Some(o)) = (subject, predicate, object) {
-                    triples_to_insert.push(Triple::new(s, p, o));
+                // An instantiation with an unbound variable or an illegal
+                // construct (e.g. a literal subject) is left out of the
+                // output (SPARQL 1.1 Update, 3.1.3).
+                if let (Some(s), Some(p), Some(o)) = (subject, predicate, object)
+                    && let Some(triple) = legal_triple(s, p, o)
+                {
+                    triples_to_insert.push(triple);
                 }
             }
         }
@@ -1248,8 +1263,10 @@ impl Operator for RdfDeletePatternOperator {
                 let predicate = self.resolve_component(&self.predicate, &chunk, row);
                 let object = self.resolve_component(&self.object, &chunk, row);
 
-                if let (Some(s), Some(p), Some(o)) = (subject, predicate, object) {
-                    triples_to_delete.push(Triple::new(s, p, o));
+                if let (Some(s), Some(p), Some(o)) = (subject, predicate, object)
+                    && let Some(triple) = legal_triple(s, p, o)
+                {
+                    triples_to_delete.push(triple);
                 }
             }
         }
@@ -1481,8 +1498,9 @@ impl Operator for RdfModifyOperator {
                 let predicate = self.resolve_component(&template.predicate, chunk, *row);
                 let object = self.resolve_component(&template.object, chunk, *row);
 
-                if let (Some(s), Some(p), Some(o)) = (subject, predicate, object) {
-                    let triple = Triple::new(s, p, o);
+                if let (Some(s), Some(p), Some(o)) = (subject, predicate, object)
+                    && let Some(triple) = legal_triple(s, p, o)
+                {
                     self.store.remove(&triple);
                 }
             }
@@ -1495,8 +1513,9 @@ impl Operator for RdfModifyOperator {
                 let predicate = self.resolve_component(&template.predicate, chunk, *row);
                 let object = self.resolve_component(&template.object, chunk, *row);
 
-                if let (Some(s), Some(p), Some(o)) = (subject, predicate, object) {
-                    let triple = Triple::new(s, p, o);
+                if let (Some(s), Some(p), Some(o)) = (subject, predicate, object)
+                    && let Some(triple) = legal_triple(s, p, o)
+                {
                     self.store.insert(triple);
                 }
             }
@@ -2378,6 +2397,17 @@ impl JoinCondition for RdfJoinCondition {
 // ============================================================================
 // Helper Functions
 // ============================================================================
+
+/// Builds a triple from instantiated terms, or `None` when they do not form a
+/// legal RDF triple: the subject must be an IRI or blank node and the
+/// predicate an IRI (`Triple::new` only debug-asserts this).
+fn legal_triple(subject: Term, predicate: Term, object: Term) -> Option<Triple> {
+    if (subject.is_iri() || subject.is_blank_node()) && predicate.is_iri() {
+        Some(Triple::new(subject, predicate, object))
+    } else {
+        None
+    }
+}
 
 /// Converts an RDF Term to a string for IRI/blank node representation.
 fn term_to_string(term: &Term) -> String {
